@@ -38,7 +38,7 @@ Theorem C06_public :
     scope (desugar pt_i64 p sx) = true ->
     run_i64 L s p = of_option (denoteZ (desugar pt_i64 p sx)).
 Proof.
-  intros L s p sx Ws Et Sc. unfold run_i64. rewrite (wellformed_evaluates lt_i64 conv_i64 pt_i64 (eval_i64 L) eq_refl s p sx Ws Et).
+  intros L s p sx Ws Et Sc. unfold run_i64. rewrite (wellformed_evaluates lt_i64 conv_i64 pt_i64 (eval_i64 L) eq_refl eq_refl s p sx Ws Et).
   now apply eval_i64_exact.
 Qed.
 Print Assumptions C06_public.
